@@ -718,6 +718,7 @@ class _Env:
         self.lists = []
         self.tuples = []
         self.blobs = []     # (var, [fields])
+        self.btuples = []   # (var, [fields]): tuples whose first component is a blob value
 
     def copy(self):
         e = _Env()
@@ -777,7 +778,31 @@ def gen_body(r, env, fns, blobs, n, depth, in_loop, names):
             v = names()
             body.append(("def", v, gen_bool(r, env, fns, 2), True, None))
             env.bools.append(v)
-        elif x < 0.42 and env.ints:
+        elif x < 0.38 and blobs and not env.blobs:
+            bname, fields = r.choice(blobs)
+            v, tv = names(), names()
+            body.append(("def", v, ("blobnew", bname, [(f, gen_int(r, env, fns, 1)) for f in fields]), True, None))
+            env.blobs.append((v, fields))
+            body.append(("def", tv, ("tuple", [("var", v), gen_int(r, env, fns, 1)]), True, None))
+            env.btuples.append((tv, fields))
+        elif x < 0.38 and env.blobs:
+            # an assignment whose TARGET contains brackets (a call / index chain), so that the layout features can put
+            # line breaks and comments inside them before the operator
+            v, fs = r.choice(env.blobs)
+            w, _ = r.choice(env.blobs)
+            k = r.random()
+            if k < 0.45:
+                target = "pickP(%s, %s).%s" % (v, w, r.choice(fs))
+            elif k < 0.7 and env.btuples:
+                tv, tfs = r.choice(env.btuples)
+                target = "%s[0].%s" % (tv, r.choice(tfs))
+            elif k < 0.85 and env.btuples:
+                tv, tfs = r.choice(env.btuples)
+                target = "pickP(%s[0], pickP(%s, %s)).%s" % (tv, v, w, r.choice(tfs))
+            else:
+                target = "%s.%s" % (v, r.choice(fs))
+            body.append(("assign", target, r.choice(["=", "+=", "-=", "*="]), gen_int(r, env, fns, 2)))
+        elif x < 0.44 and env.ints:
             body.append(("assign", r.choice(env.ints), r.choice(["=", "+=", "-=", "*="]), gen_int(r, env, fns, 2)))
         elif x < 0.52 and fns:
             f, k = r.choice(fns)
@@ -816,6 +841,10 @@ def gen_body(r, env, fns, blobs, n, depth, in_loop, names):
             v = names()
             body.append(("def", v, ("blobnew", bname, [(f, gen_int(r, env, fns, 1)) for f in fields]), True, None))
             env.blobs.append((v, fields))
+            if r.random() < 0.5:
+                tv = names()
+                body.append(("def", tv, ("tuple", [("var", v), gen_int(r, env, fns, 1)]), True, None))
+                env.btuples.append((tv, fields))
         elif x < 0.96 and depth > 0:
             body.append(("block", gen_body(r, env.copy(), fns, blobs, r.randint(1, 2), depth - 1, in_loop, names)))
         elif x < 0.98:
@@ -838,6 +867,8 @@ def gen_program(r, size=4):
         fields = ["x", "y"][:r.randint(1, 2)]
         prog.append(("blob", "P", [(f, "int") for f in fields]))
         blobs.append(("P", fields))
+        # targets of assignments with brackets on the left of the operator: pickP(v, w).x = .., t[0].x += ..
+        prog.append(("fn", "pickP", [("a", "P"), ("b", "P")], "P", [("ret", ("var", "a"))]))
     fns = []
     if r.random() < 0.4:
         prog.append(("enum", "E", r.choice([[], ["T"]]),
